@@ -22,6 +22,7 @@ func init() {
 
 func runC42(w *World, r *Report) {
 	r.Rule("R-C42-1", "guarded-by: in package services every access to ServiceCache and to CachedCompilationUnit.{s,Age,Count} happens with serviceCacheMutex held; b, t, Route and Size are stored only into an entry under construction", 10)
+	r.Rule("R-C42-4", "every removal from ServiceCache (delete of an entry, replacement of the map) is preceded on every path by Route.NeedsLock(true) — directly, or in a range over the cache that arms every entry — so that the next use of the service runs alone: a request that finds the entry of a first use still in progress gets a table without the saved symbols", 3)
 	r.Rule("R-C42-2", "request scope: the context of a service runs on NewChildSymbolTable(…, t) with t from this call's setupServerSymbols, which returns a fresh NewRootSymbolTable; the table saved by updateCachedServiceSymbols is <table>.Parent(); the saved table is only ever the source of Merge; nothing derived from the request is set on the process-wide root table", 5)
 	r.Rule("R-C42-3", "merge cannot carry request data: SymbolTable.Merge copies a name only on the not-read-only-prefix edge; a SetAlways on the request table whose name is not a constant with the read-only prefix has no path to getCachedService", 10)
 
@@ -51,6 +52,12 @@ func runC42(w *World, r *Report) {
 	if handler == nil || setup == nil || getCached == nil || update == nil || merge == nil {
 		return
 	}
+
+	c42Removals(w, r, w.srcFuncs(sp), func(v ssa.Value) bool {
+		g, ok := v.(*ssa.Global)
+
+		return ok && g.Name() == "ServiceCache" && g.Pkg.Pkg == sp.Types
+	})
 
 	roPrefix := constStringOf(defp, "ReadonlyVariablePrefix")
 	if roPrefix == "" {
@@ -509,4 +516,91 @@ func fieldTypeOf(fa *ssa.FieldAddr) types.Type {
 	}
 
 	return fa.Type()
+}
+
+// c42Removals: R-C42-4.
+func c42Removals(w *World, r *Report, fns []*ssa.Function, isCacheGlobal func(ssa.Value) bool) {
+	fromCache := func(v ssa.Value) bool {
+		u, ok := v.(*ssa.UnOp)
+
+		return ok && isCacheGlobal(u.X)
+	}
+
+	isArm := func(in ssa.Instruction) bool {
+		c, ok := in.(*ssa.Call)
+		if !ok || !strings.HasSuffix(callID(c.Common()), "router.Route.NeedsLock") || len(c.Call.Args) < 2 {
+			return false
+		}
+
+		b, isC := constBool(c.Call.Args[1])
+
+		return isC && b
+	}
+
+	for _, fn := range fns {
+		if fn.Name() == "init" && fn.Parent() == nil {
+			continue
+		}
+
+		// headers of loops that range over the cache and arm in their body
+		armingNext := map[ssa.Instruction]bool{}
+
+		for _, li := range naturalLoops(fn) {
+			arms := false
+
+			for b := range li.body {
+				for _, in := range b.Instrs {
+					if isArm(in) {
+						arms = true
+					}
+				}
+			}
+
+			if !arms {
+				continue
+			}
+
+			for _, in := range li.header.Instrs {
+				if nx, ok := in.(*ssa.Next); ok {
+					if rg, ok := nx.Iter.(*ssa.Range); ok && fromCache(rg.X) {
+						armingNext[in] = true
+					}
+				}
+			}
+		}
+
+		n := 0
+
+		allInstrs(fn, func(in ssa.Instruction) {
+			what := ""
+
+			switch x := in.(type) {
+			case *ssa.Call:
+				if b, ok := x.Call.Value.(*ssa.Builtin); ok && b.Name() == "delete" && len(x.Call.Args) == 2 && fromCache(x.Call.Args[0]) {
+					what = "delete(ServiceCache, …)"
+				}
+			case *ssa.Store:
+				if isCacheGlobal(x.Addr) {
+					what = "ServiceCache replaced"
+				}
+			}
+
+			if what == "" {
+				return
+			}
+
+			n++
+			key := fnKey(fn) + "|" + what
+			if n > 1 {
+				key += " #" + sprintInt(n)
+			}
+
+			hit := pathFromEntryAvoiding(fn, nil, func(i ssa.Instruction) bool { return isArm(i) || armingNext[i] }, func(i ssa.Instruction) bool { return i == in })
+			if hit != nil {
+				r.Violate("R-C42-4", key, w.pos(in.Pos()), "the service leaves the cache on a path that does not arm its route (Route.NeedsLock(true)), unlike the other removal sites: requests arriving while the next use compiles and runs are not held back, find a cache entry without saved symbols and fail (500 unknown identifier with automatic imports on), each failure dropping the entry again")
+			} else {
+				r.Discharge("R-C42-4", key, w.pos(in.Pos()), "Route.NeedsLock(true) on every path before the removal")
+			}
+		})
+	}
 }
